@@ -3,6 +3,8 @@ package main
 // Shared SSA / CFG helpers used by all engines.
 
 import (
+	_ "embed"
+	"encoding/json"
 	"go/constant"
 	"go/token"
 	"go/types"
@@ -1164,4 +1166,36 @@ func dominates(a, b *ssa.BasicBlock) bool {
 		}
 		x = d
 	}
+}
+
+// ---------- parameter roles, independent of today's spelling ----------
+
+//go:embed params_ref.json
+var paramsRefJSON []byte
+
+var paramsRef map[string][]string
+
+// refName: the name the parameter had on the reference tree the rules were written against (params_ref.json: function key
+// → parameter names by position, receiver first). Several rules identify a parameter by its role — the key of a lookup,
+// the value that is hashed, the per-read switch — and the role is a position in a signature; what the parameter is called
+// today is not part of any property. Functions that are not in the table fall back to the current name.
+func refName(p *ssa.Parameter) string {
+	if p == nil {
+		return ""
+	}
+	if paramsRef == nil {
+		paramsRef = map[string][]string{}
+		_ = json.Unmarshal(paramsRefJSON, &paramsRef)
+	}
+	fn := p.Parent()
+	if fn != nil {
+		if names, ok := paramsRef[FuncKey(fn)]; ok {
+			for i, q := range fn.Params {
+				if q == p && i < len(names) && len(names) == len(fn.Params) {
+					return names[i]
+				}
+			}
+		}
+	}
+	return p.Name()
 }
